@@ -4,7 +4,8 @@ import glob, json, os
 rows = []
 # tests of the repository that also fail intermittently on the unchanged tree when the machine is loaded
 FLAKY = {"TestEngine_plumbing_ReplayedHeaders", "TestEngine_mirrorSkipsAhead", "TestMirror_HandleProposedHeader",
-         "TestMirror_pastInitialHeight", "TestGblsminsig", "TestDaisyChainInmem", "TestEngine_wiring_validatorChanges"}
+         "TestMirror_pastInitialHeight", "TestGblsminsig", "TestDaisyChainInmem", "TestEngine_wiring_validatorChanges",
+         "TestLibp2pNetwork_Compliance"}
 for d in sorted(glob.glob("/verif/seeded/*/meta.json")):
     m = json.load(open(d))
     name = os.path.basename(os.path.dirname(d))
